@@ -78,7 +78,7 @@ def directed():
         mixed[str(r)] = [{"o": "LOCK", "w": 0, "lt": "s", "t": 2}] + \
             [{"o": "ACC", "w": 0, "t": 2, "idx": 0, "tc": 1, "tt": "e", "oc": 1, "ot": "e", "op": "SUM", "vals": [val]} for _ in range(8)] + \
             [{"o": "UNLOCK", "w": 0, "t": 2}]
-    mixed["0"] = [{"o": "DELAY", "us": 300}] + _rmw(0, 2, 1, 100, True)
+    mixed["0"] = [{"o": "DELAY", "us": 5000}] + _rmw(0, 2, 1, 100, True)
     D.append(("mixed-exclusive-vs-shared", {"np": 4, "types": [], "wins": _win(4), "phases": [{"kind": "mixed", "w": 0, "ranks": mixed}]}))
     # fence ring: put to the right neighbour, get from the left one, accumulate on rank 0
     ring = {}
